@@ -241,12 +241,15 @@ Lemma magic_pos : 0 < length MAGIC_VTYP /\ 0 < length MAGIC_OFFS /\ 0 < length M
   /\ 0 < length MAGIC_VARS /\ 0 < length MAGIC_INDX /\ 0 < length MAGIC_QUAD.
 Proof. cbn. lia. Qed.
 
-Theorem qm_goodp : forall f, QmWF f -> goodp qm_decode (qm_encode f) f.
+(* for any header-dictionary parser that inverts the printer on this file's header *)
+Theorem qm_goodp_with : forall (jd : bytes -> option qmhdr) f, QmWF f ->
+  (forall ws, forallb is_ws ws = true -> jd (qm_json (qm_hdr f) ++ ws) = Some (qm_hdr f)) ->
+  (forall k, k < length (qm_json (qm_hdr f)) -> jd (firstn k (qm_json (qm_hdr f))) = None) ->
+  goodp (qm_decode_with jd) (qm_encode f) f.
 Proof.
-  intros f W. destruct W as [Ho Hl Hvl Hv Hnl Hn HL Fj Fv Fl Fn FL].
-  destruct (qm_hdr_ok (qm_hdr f)) as [J1 J2].
+  intros jd f W J1 J2. destruct W as [Ho Hl Hvl Hv Hnl Hn HL Fj Fv Fl Fn FL].
   destruct magic_pos as [M1 [M2 [M3 [M4 [M5 _]]]]].
-  unfold qm_encode, qm_decode.
+  unfold qm_encode, qm_decode_with.
   apply (goodp_bind _ _ _ _ (QM_WRITE_VERSION, qm_hdr f)); [now apply goodp_header|].
   cbv beta. cbn [fst snd]. change (vlt QM_REJECT_ABOVE QM_WRITE_VERSION) with false. cbv iota.
   unfold qm_hdr at 1 2 3 4 5 6 7. cbn [q_dtype q_n q_m q_vars]. rewrite Nat2N.id.
@@ -290,6 +293,11 @@ Proof.
     + intros k Hk. apply label_prefix_rejected; [now apply HL|exact Hk].
   - apply (goodp_bind_ret (ret None) (fun labs => mkQmFile dt m vi off lin neig labs) [] None).
     apply goodp_ret.
+Qed.
+
+Theorem qm_goodp : forall f, QmWF f -> goodp qm_decode (qm_encode f) f.
+Proof.
+  intros f W. destruct (qm_hdr_ok (qm_hdr f)) as [J1 J2]. unfold qm_decode. now apply qm_goodp_with.
 Qed.
 
 Theorem qm_decode_encode : forall f, QmWF f -> run qm_decode (qm_encode f) = Ok f.
